@@ -494,7 +494,6 @@ func (m *stdMonitor) onRollout(w *World, wr *Write) {
 			if !reflect.DeepEqual(stepsOf(before), stepsOf(after)) {
 				t.OutstandingReq = true
 				t.EpochBreak = true
-				t.ReadySeen = map[int32]bool{}
 			}
 		}
 		if before.Spec.Disabled != after.Spec.Disabled || (before.DeletionTimestamp == nil && after.DeletionTimestamp != nil) {
@@ -723,13 +722,21 @@ func (m *stdMonitor) onBatchRelease(w *World, wr *Write) {
 		if wr.Verb == "status" || ro == nil || br.DeletionTimestamp != nil {
 			return
 		}
+		// a changed batch list invalidates earlier readiness reports (the BatchRelease recalculates)
+		if old, ok := wr.Before.(*v1beta1.BatchRelease); ok && old != nil && !reflect.DeepEqual(old.Spec.ReleasePlan.Batches, br.Spec.ReleasePlan.Batches) {
+			t.ReadySeen = map[int32]bool{}
+		}
 		sub := ro.Status.GetSubStatus()
 		if sub == nil {
 			return
 		}
 		steps := stepsOf(ro)
-		// the plan the BatchRelease holds is the Rollout's plan
-		if len(br.Spec.ReleasePlan.Batches) != len(steps) {
+		// the plan the BatchRelease holds is the Rollout's plan (judged on the writes that carry
+		// the whole spec: create / update by runBatchRelease; merge patches of single fields such
+		// as rolloutID or batchPartition:null do not restate the plan)
+		if wr.Verb == "patch" {
+			// fallthrough to the partition checks below
+		} else if len(br.Spec.ReleasePlan.Batches) != len(steps) {
 			w.Violate("C01", "c01-batchrelease-plan-differs", "%s: BatchRelease has %d batches, Rollout has %d steps", wr, len(br.Spec.ReleasePlan.Batches), len(steps))
 		} else {
 			for i := range steps {
@@ -883,4 +890,96 @@ func (m *stdMonitor) onNetwork(w *World, wr *Write) {
 	if t.PausedSince > 0 && t.PausedSince <= t.ReconcileStart && progressingReason(ro) == v1alpha1.ProgressingReasonInRolling {
 		w.Violate("C02", "c02-traffic-written-while-paused", "%s: gateway written for step %d while the rollout is paused", wr, k)
 	}
+}
+
+// ---------- C05: exit-path restore (evaluated on the quiescent final store) ----------
+
+// CheckRestored compares the final cluster with the user's configuration recorded before the
+// release: nothing the rollout created remains and everything it modified is back.
+func (r *Run) CheckRestored() []string {
+	w, s := r.W, r.S
+	t := w.Track()
+	if t == nil || t.Base == nil {
+		return nil
+	}
+	out := w.Residue(s)
+	b := t.Base
+	if s.HasTraffic() {
+		if o := w.Get(GVKService, s.Namespace, s.StableServiceName()); o != nil {
+			if sel := o.(*corev1.Service).Spec.Selector; !reflect.DeepEqual(sel, b.ServiceSelector) {
+				out = append(out, fmt.Sprintf("stable Service selector is %v, the user configured %v", sel, b.ServiceSelector))
+			}
+		}
+		if o := w.Get(GVKIngress, s.Namespace, s.IngressName()); o != nil {
+			if !reflect.DeepEqual(normalizedSpec(o), b.IngressSpec) || !reflect.DeepEqual(o.GetAnnotations(), b.IngressAnn) {
+				out = append(out, "stable Ingress differs from the user's configuration")
+			}
+		}
+		if o := w.Get(GVKHTTPRoute, s.Namespace, s.RouteName()); o != nil {
+			if got := routeShares(o.(*gatewayv1beta1.HTTPRoute)); !reflect.DeepEqual(got, b.RouteRules) {
+				out = append(out, fmt.Sprintf("HTTPRoute rules differ from the user's configuration: %v vs %v", got, b.RouteRules))
+			}
+		}
+	}
+	var tpl *corev1.PodTemplateSpec
+	switch s.Workload {
+	case "cloneset":
+		o := w.Get(GVKCloneSet, s.Namespace, s.Name)
+		if o == nil {
+			return out
+		}
+		cs := o.(*kruisev1alpha1.CloneSet)
+		tpl = &cs.Spec.Template
+		if cs.Spec.UpdateStrategy.Paused != b.WorkloadPaused {
+			out = append(out, fmt.Sprintf("CloneSet updateStrategy.paused=%v, user had %v", cs.Spec.UpdateStrategy.Paused, b.WorkloadPaused))
+		}
+		if p := cs.Spec.UpdateStrategy.Partition; p != nil && scaledRoundUp(p, int(pointer.Int32Deref(cs.Spec.Replicas, 0)), 0) != 0 {
+			out = append(out, "CloneSet partition left at "+p.String())
+		}
+		want := cs.Name + "-" + revisionHash(tpl)
+		for _, p := range livePods(w.podsOwnedBy(cs.Namespace, cs.UID)) {
+			if p.Labels[appsv1.ControllerRevisionHashLabelKey] != want || !isPodReady(p) {
+				out = append(out, fmt.Sprintf("pod %s is not on the desired revision %s and ready", p.Name, want))
+				break
+			}
+		}
+	default:
+		o := w.Get(GVKDeployment, s.Namespace, s.Name)
+		if o == nil {
+			return out
+		}
+		d := o.(*appsv1.Deployment)
+		if d.Spec.Paused != b.WorkloadPaused {
+			out = append(out, fmt.Sprintf("Deployment spec.paused=%v, user had %v", d.Spec.Paused, b.WorkloadPaused))
+		}
+		if got := normalizedAny(d.Spec.Strategy); !reflect.DeepEqual(got, b.DeployStrategy) {
+			out = append(out, fmt.Sprintf("Deployment strategy is %v, user had %v", got, b.DeployStrategy))
+		}
+		for _, k := range []string{v1alpha1.DeploymentStrategyAnnotation, v1beta1.OriginalDeploymentStrategyAnnotation} {
+			if _, ok := d.Annotations[k]; ok {
+				out = append(out, "Deployment still carries annotation "+k)
+			}
+		}
+		v := w.viewDeployment(d)
+		if v.newRS == nil {
+			out = append(out, "no ReplicaSet for the desired template")
+		} else {
+			for _, rs := range v.oldRSs {
+				if n := len(livePods(w.podsOwnedBy(rs.Namespace, rs.UID))); n > 0 {
+					out = append(out, fmt.Sprintf("%d pods still on old ReplicaSet %s", n, rs.Name))
+				}
+			}
+			pods := livePods(w.podsOwnedBy(v.newRS.Namespace, v.newRS.UID))
+			if len(pods) != v.replicas {
+				out = append(out, fmt.Sprintf("%d pods on the desired revision, want %d", len(pods), v.replicas))
+			}
+			for _, p := range pods {
+				if !isPodReady(p) {
+					out = append(out, "pod "+p.Name+" not ready")
+					break
+				}
+			}
+		}
+	}
+	return out
 }
